@@ -151,7 +151,7 @@ func c19Client(c *vf.Ctx, st *findServer, srv *httptest.Server) {
 		c.Fail(sub, 0, "client-new", err.Error(), nil)
 		return
 	}
-	n := c.N(3000, 100000)
+	n := c.N(8000, 100000)
 	for i := 0; i < n; i++ {
 		if !c.Mine(sub, i) {
 			continue
@@ -283,7 +283,7 @@ func c19Raw(c *vf.Ctx, st *findServer, srv *httptest.Server) {
 	if !c.Active(sub) {
 		return
 	}
-	n := c.N(7000, 200000)
+	n := c.N(20000, 200000)
 	hc := srv.Client()
 	for i := 0; i < n; i++ {
 		if !c.Mine(sub, i) {
@@ -453,7 +453,7 @@ func c19APIError(c *vf.Ctx) {
 	if !c.Active(sub) {
 		return
 	}
-	n := c.N(3000, 100000)
+	n := c.N(8000, 100000)
 	for i := 0; i < n; i++ {
 		if !c.Mine(sub, i) {
 			continue
